@@ -203,6 +203,22 @@ CLAIMED["C20"] = (
     "molecules.",
     "5/C20", "")
 
+CLAIMED["C09"] = (
+    "TLA+ model of the merge engine over boundary descriptors and rule tables (Merge.tla) checked exhaustively by TLC "
+    "against the shipped tables; real merge() calls on fragments cut by the harness validated by TLC (Merge_Trace.tla)",
+    "TLC checks for every pair of boundary descriptors (symbols x neighbour symbols x functional groups x patterns) that "
+    "a merge rule always applies, a single-fragment completion is well formed, expansion compounds are carbon free, and "
+    "that the pairs NOT merged back by one single bond are exactly those of the two restriction rules and the three "
+    "phosphorus / diazo rules. For (molecule, acyclic single bond) pairs from generated molecules and the corpus the "
+    "harness cuts the bond with RDKit, builds the CompoundSet as build_compounds does (as molecules and as SMILES with "
+    "re-mapped indices, both fragment orders), calls the real merge on both fragments and on each fragment alone, and "
+    "TLC checks: no exception, valid molecule, no open attachment point, carbon count conserved, heavy atoms = "
+    "fragments + compounds named by the reported expansion rules (rule tables read from the log), original "
+    "reconstructed unless a reported rule is a restriction, single-fragment result = fragment bonded to (or, under a "
+    "restriction, next to) exactly the compound of the reported expansion rule; the reported rule names are also "
+    "compared with the model's first-applicable-rule prediction (drift).",
+    "5/C09", "")
+
 PENDING_REASON = "check not built yet in this round (planned, see DESIGN.md section 5); not claimed until it passes on the unchanged tree"
 
 
